@@ -70,6 +70,8 @@ class Builder(object):
         self.dead = dead        # list receiving dead letters of error routers
         self.mux = mux
         self.late = []          # dead-letter subscriptions to perform after the data stream is subscribed
+        self.dead_subs = []     # every dead-letter subscription function (performed again before a re-subscription)
+        self.dead_disp = []     # disposables of the dead-letter subscriptions made so far
 
     def pipe(self, term, path=''):
         ops = []
@@ -152,8 +154,9 @@ class Builder(object):
             errors, route = rs.error.create_error_router()
             dead = self.dead if self.dead is not None else []
             def sub():
-                errors.subscribe(on_next=lambda e: dead.append(type(e).__name__),
-                                 on_completed=lambda: dead.append('<completed>'))
+                self.dead_disp.append(errors.subscribe(on_next=lambda e: dead.append(type(e).__name__),
+                                                       on_completed=lambda: dead.append('<completed>')))
+            self.dead_subs.append(sub)
             if st[1:] == ['late']:
                 self.late.append(sub)
             else:
@@ -202,15 +205,64 @@ def enc_out(kind, v):
     return {kind: v}
 
 
-def run_mux(term, items, bounds=False):
+class ResubSource(object):
+    """a cold source that hands every subscription its own Subject (so that the SAME pipeline object can be
+    subscribed again after an earlier subscription completed, failed or was disposed)"""
+
+    def __init__(self):
+        self.subject = None
+
+        def subscribe(observer, scheduler=None):
+            self.subject = Subject()
+            return self.subject.subscribe(observer, scheduler=scheduler)
+        self.observable = rx.create(subscribe)
+
+
+def run_prelude(obs, source, prelude):
+    """an earlier subscription of the same observable object: feed `items`, then end it as requested"""
+    source.subject = None
+    d = obs.subscribe(on_next=lambda i: None, on_error=lambda e: None, on_completed=lambda: None)
+    s = source.subject or Subject()      # an operator such as RxPY's take(0) never subscribes its source
+    try:
+        for it in prelude.get('items', []):
+            s.on_next(dec(it))
+        end = prelude.get('end', 'complete')
+        if end == 'complete':
+            s.on_completed()
+        elif end == 'error':
+            s.on_error(ValueError('source failed'))
+        d.dispose()
+    except Exception:       # an exception escaping through the source ends the earlier subscription as well
+        try:
+            d.dispose()
+        except Exception:
+            pass
+
+
+def run_mux(term, items, bounds=False, prelude=None):
     """Real run of `with_memory_store(pipeline)` on a plain source driven item by item.
     Returns chunks [subscription, item 0.., completion] of outputs as the model encodes them,
-    boundary logs, dead letters."""
+    boundary logs, dead letters.  With `prelude`, the same observable object has been subscribed once
+    before (and that subscription completed / failed / was disposed)."""
     log = {} if bounds else None
     dead = []
     b = Builder(log=log, dead=dead)
     ops = b.pipe(term)
-    src = Subject()
+    if prelude is not None:
+        rsrc = ResubSource()
+        obs = rsrc.observable.pipe(rs.state.with_memory_store(pipeline=ops))
+        for sub in b.late:
+            sub()
+        run_prelude(obs, rsrc, prelude)
+        for d in b.dead_disp:
+            d.dispose()
+        del b.dead_disp[:]
+        if log is not None:
+            log.clear()
+        del dead[:]
+        for sub in b.dead_subs:
+            if sub not in b.late:
+                sub()
     cur = []
     state = {'stopped': False}
 
@@ -224,8 +276,14 @@ def run_mux(term, items, bounds=False):
     def on_completed():
         state['stopped'] = True
 
-    src.pipe(rs.state.with_memory_store(pipeline=ops)).subscribe(
-        on_next=on_next, on_error=on_error, on_completed=on_completed)
+    if prelude is not None:
+        rsrc.subject = None
+        obs.subscribe(on_next=on_next, on_error=on_error, on_completed=on_completed)
+        src = rsrc.subject or Subject()
+    else:
+        src = Subject()
+        src.pipe(rs.state.with_memory_store(pipeline=ops)).subscribe(
+            on_next=on_next, on_error=on_error, on_completed=on_completed)
     for sub in b.late:
         sub()
     chunks = [list(cur)]
@@ -252,11 +310,15 @@ def run_mux(term, items, bounds=False):
     return {'chunks': chunks, 'bounds': log, 'dead': dead, 'raised': raised}
 
 
-def run_plain(term, items):
-    """Real run of the same operators on an ordinary observable, item by item"""
+def run_plain(term, items, prelude=None):
+    """Real run of the same operators on an ordinary observable, item by item (with `prelude`: after an earlier
+    subscription of the same observable object)"""
     b = Builder(mux=False)
     ops = b.pipe(term)
-    src = Subject()
+    if prelude is not None:
+        rsrc = ResubSource()
+        obs = rsrc.observable.pipe(*ops)
+        run_prelude(obs, rsrc, prelude)
     cur = []
     state = {'end': None}
 
@@ -270,7 +332,13 @@ def run_plain(term, items):
     def on_completed():
         state['end'] = 'completed'
 
-    src.pipe(*ops).subscribe(on_next=on_next, on_error=on_error, on_completed=on_completed)
+    if prelude is not None:
+        rsrc.subject = None
+        obs.subscribe(on_next=on_next, on_error=on_error, on_completed=on_completed)
+        src = rsrc.subject or Subject()
+    else:
+        src = Subject()
+        src.pipe(*ops).subscribe(on_next=on_next, on_error=on_error, on_completed=on_completed)
     chunks = [list(cur)]
     del cur[:]
     raised = None
